@@ -201,8 +201,8 @@ pub fn suites() -> Vec<Suite> {
         head_len: 140,
         op_len: 0,
         max_ops: 0,
-        quick_cases: 2_500,
-        thorough_cases: 30_000,
+        quick_cases: 6_000,
+        thorough_cases: 80_000,
         run,
         direct: Some(direct),
         must_hit: &["size:0", "size:1-9", "size:10", "size:11-29", "size:30", "size:31-40", "c:every-cursor-tried"],
